@@ -81,16 +81,16 @@ theorem closeLoop_keeps (S : Spool) {cs : List Bytes} {p n : Bytes} {fid : Nat} 
     · exact hg1
 
 /-- `maildir_close` of the spool, under every fault plan, leaves an entry outside the spool alone. -/
-theorem closeStdin_keeps (S : Spool) {cs : List Bytes} {p n : Bytes} {fid : Nat} (hne : p ≠ S.sp) {w : World}
+theorem closeStdin_keeps (S : Spool) {cs : List Bytes} {p n : Bytes} {fid : Nat} (hne : p ≠ S.sp) (fuel : Nat) {w : World}
     (hg : GoodAt w cs p n fid) (hd : ∃ snap pos, w.obj S.d = .dir S.sp snap pos) :
-    wp (fun _ => True) (closeStdin (spoolMd S)) (fun _ w' => GoodAt w' cs p n fid) w := by
+    wp (fun _ => True) (closeStdin fuel (spoolMd S)) (fun _ w' => GoodAt w' cs p n fid) w := by
   obtain ⟨snap, pos, hobj⟩ := hd
   unfold closeStdin
   simp only [spoolMd, bind_eq, pure_eq, call_bind]
   refine wp_call_any fun r => ⟨trivial, ?_⟩
   have hg1 := hg.step (.rewinddir S.d) r trivial trivial
   have hd1 := obj_rewinddir_any S r hobj
-  refine wp_bind_mono (closeLoop_keeps S hne 64 hg1 hd1) ?_
+  refine wp_bind_mono (closeLoop_keeps S hne fuel hg1 hd1) ?_
   intro _ w2 hg2
   refine wp_call_any fun r1 => ⟨trivial, ?_⟩
   have hg3 := hg2.rmdir S.sp r1
@@ -106,14 +106,16 @@ def CleanPre (w0 w : World) (md : Maildir) : Prop :=
   (md.dirH = none ∧
     ∀ q, (w.dir q).isSome → (w0.dir q).isSome ∨ ((q = md.path ∨ q = md.root) ∧ w.dir q = some [])) ∨
   (∃ d es, md.dirH = some d ∧ md.root ≠ md.path ∧ w.dirPath d = some md.path ∧ w.dir md.path = some es ∧
-    es.length ≤ 62 ∧ (∀ e ∈ es, (95 : UInt8) ∈ e.1) ∧ w.dir md.root = some [] ∧
+    es.length ≤ 61 ∧ (∀ e ∈ es, (95 : UInt8) ∈ e.1) ∧ w.dir md.root = some [] ∧
     ∀ q, q ≠ md.path → q ≠ md.root → (w.dir q).isSome → (w0.dir q).isSome)
 
-theorem closeStdin_clean {w0 w : World} {md : Maildir} (h : CleanPre w0 w md) :
-    wpN (closeStdin md) (fun _ w' => ∀ q, (w'.dir q).isSome → (w0.dir q).isSome) w := by
+theorem closeStdin_clean {w0 w : World} {md : Maildir} (h : CleanPre w0 w md) (fuel : Nat) (hfuel : 64 ≤ fuel) :
+    wpN (closeStdin fuel md) (fun fo w' => (∀ q, (w'.dir q).isSome → (w0.dir q).isSome) ∧ fo = false) w := by
   rcases h with ⟨hmd, hq⟩ | ⟨d, es, hmd, hne, hdp, hsp, hlen, hnm, hr, hq⟩
-  · refine wpN_mono (spec_closeStdin_none md hmd) ?_
-    rintro _ w' ⟨hall, hp, hrt⟩ q hsome
+  · refine wpN_mono (spec_closeStdin_none fuel md hmd) ?_
+    rintro _ w' ⟨hall, hp, hrt, hfo⟩
+    refine ⟨?_, hfo⟩
+    intro q hsome
     rcases hall q with h | h
     · rw [h] at hsome
       rcases hq q hsome with h0 | ⟨hpr, hemp⟩
@@ -127,8 +129,10 @@ theorem closeStdin_clean {w0 w : World} {md : Maildir} (h : CleanPre w0 w md) :
           rw [← h] at hsome
           cases hsome
     · rw [h] at hsome; cases hsome
-  · refine wpN_mono (spec_closeStdin_dir md d hmd hne hdp hsp hlen hnm hr) ?_
-    rintro _ w' ⟨h1, h2, h3⟩ q hsome
+  · refine wpN_mono (spec_closeStdin_dir fuel md d hmd hne hdp hsp (by omega) hnm hr) ?_
+    rintro _ w' ⟨h1, h2, h3, hfo⟩
+    refine ⟨?_, hfo⟩
+    intro q hsome
     by_cases hq1 : q = md.path
     · rw [hq1, h1] at hsome; cases hsome
     · by_cases hq2 : q = md.root
